@@ -38,6 +38,13 @@ JudgeDoc(line) ==
   /\ Relate(line.i, "lib-value", o.lib.ok /\ o.lib.val = line.doc)
   /\ Relate(line.i, "test-same", o.test.ok /\ o.test.same = "PASS")
   /\ Relate(line.i, "positions", o.validate.ok /\ got = want)
+  \* the SARIF report of the same run: the message of a result names the scalar with its position,
+  \* and the region of the result is the (1-based) position of one of the values the message names
+  \* (the implementation takes the compared-to value: 1:1 for a literal of the rules file)
+  /\ Relate(line.i, "sarif-regions",
+            /\ o.validate.ok
+            /\ {<<x.p, x.l, x.c>> : x \in SetOf(o.validate.spos)} = want
+            /\ \A x \in SetOf(o.validate.spos) : x.rn)
 
 JudgeScalar(line) ==
   LET e == ExpectedType(line.cp, line.style)
@@ -62,8 +69,17 @@ JudgeReject(line) ==
   /\ Relate(line.i, "rejected-lib", ~line.obs.lib.ok)
   /\ Relate(line.i, "rejected-test", ~line.obs.test.ok)
 
+\* a JSON document {"v": "<escaped spelling>"}: the loader of validate and the loader of the library
+\* entry point yield the string the spelling stands for
+JudgeEscape(line) ==
+  LET want == StrVal(Unescape(line.cp, 1))
+      o == line.obs IN
+  /\ Relate(line.i, "escape-validate", o.validate.val = want)
+  /\ Relate(line.i, "escape-lib", o.lib.val = want)
+
 Judge(line) ==
   CASE line.kind = "doc" -> JudgeDoc(line)
+    [] line.kind = "escape" -> JudgeEscape(line)
     [] line.kind = "scalar" -> JudgeScalar(line)
     [] line.kind = "tag" -> JudgeTag(line)
     [] line.kind = "reject" -> JudgeReject(line)
